@@ -52,14 +52,18 @@ def deep(x):
         return tuple(deep(e) for e in x)
     d = getattr(x, "data", None)
     if isinstance(d, list):
-        y = x.__class__.Empty() if hasattr(x.__class__, "Empty") else None
+        # an equal object built from the values alone: nothing cached on x is carried over
         try:
-            y = x.__class__.__new__(x.__class__)
-            y.__dict__.update(x.__dict__)
+            y = x.__class__.Empty()
             y.data = [deep(e) for e in d]
             return y
         except Exception:  # noqa
-            return x
+            try:
+                y = x.__class__.__new__(x.__class__)
+                y.data = [deep(e) for e in d]
+                return y
+            except Exception:  # noqa
+                return x
     if hasattr(x, "real") and hasattr(x, "dual") and not isinstance(x, (int, float, complex, np.generic)):
         return x.__class__(deep(x.real), deep(x.dual))
     return x
@@ -183,6 +187,19 @@ def ops():
     add("SO3.Exp(v3)", ["v3"], lambda v: L.SO3.Exp(v))
     add("SE3.SO3(SO3)", ["SO3"], lambda X: L.SE3.SO3(X[0]))
     add("DQ(SE3)", ["SE3"], lambda X: L.UnitDualQuaternion(X[0]))
+    # printing / string conversion (no file involved: file=None returns the string)
+    add("b.trprint(T4)", ["T4"], lambda T: b.trprint(T, file=None))
+    add("b.trprint(R3)", ["R3"], lambda R: b.trprint(R, file=None))
+    add("b.trprint(T4,eul)", ["T4"], lambda T: b.trprint(T, orient="eul", file=None))
+    add("b.trprint2(T3)", ["T3"], lambda T: b.trprint2(T, file=None))
+    add("b.qprint(q4)", ["q4"], lambda q: b.qprint(q, file=None))
+    for k in ("SO3", "SE3", "SO2", "SE2"):
+        add("%s.printline" % k, [k], lambda X: X.printline(file=None))
+        add("str(%s)" % k, [k], lambda X: str(X))
+        add("repr(%s)" % k, [k], lambda X: repr(X))
+    for k in ("UQ", "Q", "Tw3", "Tw2", "Pl", "SV"):
+        add("str(%s)" % k, [k], lambda X: str(X))
+        add("repr(%s)" % k, [k], lambda X: repr(X))
     add("SE3.Rand", [], lambda: L.SE3.Rand(N=2), random=True)
     add("UQ.Rand", [], lambda: L.UnitQuaternion.Rand(), random=True)
     # binary operators between objects
@@ -216,9 +233,10 @@ def ops():
     add("SE3.t", ["SE3"], lambda X: X.t)
     add("SE3.rpy", ["SE3"], lambda X: X.rpy())
     add("SO3.eul", ["SO3"], lambda X: X.eul())
-    add("SE3.Ad", ["SE3"], lambda X: X[0].Ad())
-    add("SE3.delta", ["SE3", "SE3"], lambda X, Y: X[0].delta(Y[0]))
-    add("SE3.Twist3", ["SE3"], lambda X: X[0].Twist3())
+    add("SE3.Ad", ["SE3"], lambda X: one(X).Ad())
+    add("SE3.delta", ["SE3", "SE3"], lambda X, Y: one(X).delta(one(Y)))
+    add("SE3.jacob", ["SE3"], lambda X: one(X).jacob())
+    add("SE3.Twist3", ["SE3"], lambda X: one(X).Twist3())
     add("SE2.xyt", ["SE2"], lambda X: X.xyt())
     add("SE2.SE3", ["SE2"], lambda X: X.SE3())
     add("SO2.SE2", ["SO2"], lambda X: X[0].SE2())
@@ -287,7 +305,8 @@ def ops():
     add("SV+SV", ["SV", "SV"], lambda A, B: A[0] + B[0])
     add("SV-SV", ["SV", "SV"], lambda A, B: A[0] - B[0])
     add("-SV", ["SV"], lambda A: -A)
-    add("SV.cross", ["SV", "SV"], lambda A, B: A[0].cross(B[0]))
+    add("SV.cross", ["SV", "SV"], lambda A, B: one(A).cross(one(B)))
+    add("SV@SV", ["SV", "SV"], lambda A, B: one(A) @ one(B))
     add("SI*SV", ["SV"], lambda A: L.SpatialInertia(2.0, [0.1, 0.2, 0.3], np.eye(3)) * A[0])
     add("DQ*DQ", ["DQ", "DQ"], _op.mul)
     add("DQ+DQ", ["DQ", "DQ"], _op.add)
@@ -306,6 +325,11 @@ def ops():
         add("%s.setitem" % k, [k, k], lambda X, Y: X.__setitem__(0, Y[0]), mutator=True)
         add("%s.pop" % k, [k], lambda X: X.pop() if len(X) > 1 else None, mutator=True)
     return {k: v for k, v in O.items() if v is not None}
+
+
+def one(X):
+    """the object itself if it holds one value (so that anything it caches is reused), else its first element"""
+    return X if len(X) == 1 else X[0]
 
 
 def _aug(X, Y, name):
@@ -344,6 +368,9 @@ def initial_pool(seeds):
     for M in T:
         pool["T4"].append(M.copy())
         pool["R3"].append(M[:3, :3].copy())
+    Tres = refs.rt(refs.rotx(np.pi), np.array([1.2e-16, -0.0, 1.0]))       # residue 1.2e-16, -0.0 and sin(pi) entries
+    pool["T4"].append(Tres.copy())
+    pool["R3"].append(Tres[:3, :3].copy())
     for M in T2:
         pool["T3"].append(M.copy())
         pool["R2"].append(M[:2, :2].copy())
@@ -357,9 +384,9 @@ def initial_pool(seeds):
         pool["t3"].append(tuple(float(x) for x in v[1:4]))
     pool["s"] = [float(seeds["s"]), 0.25, 2]
     pool["SO3"] = [L.SO3(T[0][:3, :3].copy()), L.SO3([M[:3, :3].copy() for M in T])]
-    pool["SE3"] = [L.SE3(T[0].copy()), L.SE3([M.copy() for M in T])]
+    pool["SE3"] = [L.SE3(T[0].copy()), L.SE3([M.copy() for M in T]), L.SE3(Tres.copy(), check=False)]
     pool["SO2"] = [L.SO2(T2[0][:2, :2].copy()), L.SO2([M[:2, :2].copy() for M in T2])]
-    pool["SE2"] = [L.SE2(T2[0].copy()), L.SE2([M.copy() for M in T2])]
+    pool["SE2"] = [L.SE2(T2[0].copy()), L.SE2([M.copy() for M in T2]), L.SE2(refs.rt(refs.rot2(np.pi), [3.3e-17, -0.0]), check=False)]
     qs = [refs.q_of(s["rot"]) for s in seeds["p3"]]
     pool["UQ"] = [L.UnitQuaternion(qs[0].copy()), L.UnitQuaternion([q.copy() for q in qs]),
                   L.UnitQuaternion([float(-x) for x in qs[0]]), L.UnitQuaternion([-qs[1], qs[2], -qs[0]])]   # both halves of the double cover
